@@ -204,6 +204,8 @@ func init() {
 		}
 		qs, _ := req["q"].([]any)
 		res := make([][]int, 0, len(qs))
+		// one memo cache for all "ancset" queries of a request, as in detectOutputConflicts
+		ancCache := make(map[label.TargetLabel]map[label.TargetLabel]struct{})
 		for _, q := range qs {
 			m, _ := q.(map[string]any)
 			v := asInt(m["v"])
@@ -223,6 +225,15 @@ func init() {
 				list = g.GetDependencies(node)
 			case "rdeps":
 				list = g.GetDependants(node)
+			case "ancset":
+				set := analysis.VerifAncestorSet(g, node, ancCache)
+				out := make([]int, 0, len(set))
+				for l := range set {
+					out = append(out, idx[l])
+				}
+				sort.Ints(out)
+				res = append(res, out)
+				continue
 			default:
 				return nil, fmt.Errorf("bad query kind")
 			}
